@@ -39,11 +39,6 @@ def first_stmt(fn):
     return b[0] if b else None
 
 
-def is_finished_guard(st, ret_self=False):
-    return (isinstance(st, ast.If) and astq.u(st.test) == 'self.flag.FINISHED in self.flag' and not st.orelse
-            and len(st.body) == 1 and isinstance(st.body[0], ast.Return))
-
-
 def run(ctx, rep):
     m = ctx.m
     R0 = rep.rule('C17.R0', 'verdict properties folded over all flag combinations: valid/invalid are None unless '
